@@ -177,24 +177,6 @@ Skipped(cpu, form, ops) == FALSE
 Unjudged(cpu, form, ops) == FALSE
 
 \* ---------------------------------------------------------------- table sanity for a prefix-coded ISA
-\* possible values of unit u of a form: -1 if the unit carries (part of) an operand of 8 or more bits, otherwise the
-\* set of values obtained by enumerating its register / bit-number fields
-SmallVals(fld) == IF fld.k = "enum" THEN {fld.names[i][2] : i \in 1..Len(fld.names)}
-                  ELSE {v \div fld.scale : v \in {x \in fld.lo..fld.hi : x % fld.scale = 0}}
-RECURSIVE UnitVals(_, _, _)
-UnitVals(form, u, i) ==      \* values contributed by pieces i.. of unit u
-  IF i > Len(form.enc[u].parts) THEN {0}
-  ELSE LET p == form.enc[u].parts[i] IN
-       {Bits(v, p.shr, p.w) * (2^p.shl) + r : v \in SmallVals(form.flds[p.f]), r \in UnitVals(form, u, i + 1)}
-WideUnit(form, u) == \E i \in 1..Len(form.enc[u].parts) : form.flds[form.enc[u].parts[i].f].w >= 8
-KeyAt(form, u) == IF WideUnit(form, u) THEN {-1} ELSE {form.enc[u].c + x : x \in UnitVals(form, u, 1)}
-\* two forms can never produce the same byte sequence: some unit distinguishes all their variants
-Distinct(f, g) ==
-  \E u \in 1..(IF Len(f.enc) < Len(g.enc) THEN Len(f.enc) ELSE Len(g.enc)) :
-     /\ -1 \notin KeyAt(f, u) /\ -1 \notin KeyAt(g, u)
-     /\ KeyAt(f, u) \cap KeyAt(g, u) = {}
-\* (LD r,r' never meets HALT because (HL) = 110 is not a register code: the variants are enumerated exactly)
-KeysDistinct(forms) == \A f, g \in {h \in forms : ~h.alias} : f # g => Distinct(f, g)
 \* manufacturer's opcode page counts: 252 unprefixed opcodes (256 minus the prefixes CB DD ED FD), 248 documented CB
 \* opcodes (256 minus SLL), 56 documented ED opcodes that can be spelled (see header)
 Page(forms, pre, n) == UNION {KeyAt(f, n) : f \in {h \in forms : ~h.alias /\ Len(h.enc) >= n /\ (n = 1 \/ h.enc[1] = C(pre))}}
